@@ -266,7 +266,7 @@ def expected_add(b, args):
     for a in args:
         if a == b".":
             continue
-        if a not in b.files and a not in b.dirs and a not in st:
+        if a not in b.files and a not in b.dirs and a not in st and not any(under(a, q) for q in st):
             return None
     for a in args:
         if a in b.files:
@@ -283,11 +283,18 @@ def expected_add(b, args):
                         st[f] = "?"
                     elif not ex:
                         st[f] = githash(b.files[f])
-        else:
+        elif a in st:
             if excluded(b, a) is False:
                 st.pop(a, None)
             else:
                 st[a] = "?"
+        else:
+            # a tracked directory that no longer exists: every tracked path beneath it is unstaged
+            for q in [q for q in st if under(a, q)]:
+                if excluded(b, a) is False and excluded(b, q) is False:
+                    st.pop(q, None)
+                else:
+                    st[q] = "?"
     return st
 
 
@@ -319,7 +326,10 @@ def o_c04(recs):
                 elif not unchanged(b, a):
                     bad.append((i, "refused add changed %s" % what_changed(b, a)))
                 continue
-            missing_twice = any(args.count(x) > 1 and x not in b.files and x not in b.dirs for x in args)
+            gone = [x for x in args if x not in b.files and x not in b.dirs]
+            # a missing path named twice, or named together with a missing directory above it: the later
+            # occurrence finds nothing left to unstage
+            missing_twice = any(args.count(x) > 1 or any(y != x and under(y, x) for y in gone) for x in gone)
             if r.res.cls != "ok":
                 if not missing_twice:
                     bad.append((i, "valid add failed: %r" % r.res.err[-120:]))
